@@ -267,7 +267,7 @@ def count_pass(case, mode="structural"):
             "panel": pan0, "values": vals}
 
 
-def inject(case, k, mode, exc_name, ref, deep):
+def inject(case, k, mode, exc_name, ref, deep, k2=None):
     """One injection.  Returns (status, detail): status in fired-ok / not-fired / swallowed-ok
     / VIOLATION."""
     faults.cache_drop()
@@ -285,9 +285,16 @@ def inject(case, k, mode, exc_name, ref, deep):
         return "not-fired", "", None
     site = info["fired_site"]
     status = "fired-ok" if outcome == "raise" else "swallowed-ok"
+    if k2 is not None:
+        # fault sequence: a second fault in the same operation on the surviving operands
+        outcome2, payload2, info2 = mon.run(lambda: ops.perform(case["step"], operands), mode=mode,
+                                            target=k2, exc=exc)
+        if info2["fired"]:
+            site = info2["fired_site"]
+            status = "fired-ok" if outcome2 == "raise" else "swallowed-ok"
     tol = kernel.Tol(*[v for v in vals if not isinstance(v, str)]) if any(
         not isinstance(v, str) for v in vals) else None
-    exact = tol is None or tol.exact
+    exact = tol is None or (tol.exact and not tol.rounding_possible)
     # 1. operands still denote their regions
     for i, (o, v0) in enumerate(zip(objs, vals)):
         try:
@@ -477,8 +484,13 @@ def _worker_task(case, ks, mode, excs, deep_every):
         for i, k in enumerate(ks):
             exc = excs[i % len(excs)]
             deep = (k % deep_every) == 0
+            k2 = None
+            if mode == "structural" and i % 5 == 4 and ref["count"] > 1:
+                # every fifth injection is a sequence of two faults
+                k2 = 1 + (k * 7919 + i) % ref["count"]
+                out["sequences"] = out.get("sequences", 0) + 1
             try:
-                status, detail, site = inject(case, k, mode, exc, ref, deep)
+                status, detail, site = inject(case, k, mode, exc, ref, deep, k2)
             except Exception:  # noqa: BLE001
                 out["harness"].append(f"{case['name']} k={k}: {traceback.format_exc()[-600:]}")
                 continue
@@ -495,7 +507,7 @@ def _worker_task(case, ks, mode, excs, deep_every):
             if status == "swallowed-ok":
                 out["swallowed"] += 1
             if status == "VIOLATION":
-                out["violations"].append({"case": case["name"], "k": k, "mode": mode, "exc": exc,
+                out["violations"].append({"case": case["name"], "k": k, "k2": k2, "mode": mode, "exc": exc,
                                           "site": list(site) if site else None, "details": detail})
     finally:
         faulthandler.cancel_dump_traceback_later()
@@ -614,6 +626,7 @@ def check(tier, seed, jobs):
             for k, v in out["by_exc"].items():
                 totals["by_exc"][k] = totals["by_exc"].get(k, 0) + v
             per_case_fired[i] = per_case_fired.get(i, 0) + out["fired"]
+            totals["sequences"] = totals.get("sequences", 0) + out.get("sequences", 0)
             plan[i]["cpu_s"] = round(plan[i].get("cpu_s", 0) + out["wall"], 1)
             sites.update(tuple(s) for s in out["sites"])
             for v in out["violations"]:
@@ -665,6 +678,7 @@ def check(tier, seed, jobs):
             "catalogue_cases": len(cat), "generated_cases": len(gens),
             "faults_fired": totals["fired"], "faults_not_fired": totals["not_fired"],
             "faults_swallowed_by_library": totals["swallowed"],
+            "fault_sequences_of_two": totals.get("sequences", 0),
             "fired_by_exception_kind": totals["by_exc"], "fired_by_mode": totals["by_mode"],
             "distinct_crash_sites": len(sites),
             "cases_fully_enumerated": sum(1 for i in plan if plan[i]["exhaustive"]),
@@ -725,7 +739,7 @@ def _minimise_k(case, v):
         for k in sorted(set([1, 2, 3, 5, 8, 13, 21, 34, 55, 89, 144, 233, 377, 610, 987])):
             if k >= best["k"]:
                 break
-            status, detail, site = inject(case, k, v["mode"], v["exc"], ref, True)
+            status, detail, site = inject(case, k, v["mode"], v["exc"], ref, True, v.get("k2"))
             if status == "VIOLATION":
                 best = dict(v, k=k, details=detail, site=list(site) if site else None)
                 break
@@ -740,7 +754,7 @@ def _write_replay(seed, case, v):
     h = hashlib.sha256(json.dumps([case, v["k"], v["mode"], v["exc"]], sort_keys=True).encode()).hexdigest()[:10]
     path = os.path.join(M.replay_dir(), f"C11-{seed}-{h}.json")
     doc = {"property": "C11", "kind": "c11", "seed": seed, "python": sys.version.split()[0],
-           "case": case, "fault": {"k": v["k"], "mode": v["mode"], "exc": v["exc"], "site": v["site"]},
+           "case": case, "fault": {"k": v["k"], "k2": v.get("k2"), "mode": v["mode"], "exc": v["exc"], "site": v["site"]},
            "violation": {"invariant": "operands-after-fault", "details": v["details"]}}
     with open(path, "w") as f:
         json.dump(doc, f, indent=1)
@@ -773,7 +787,7 @@ def replay(doc):
         return 0
     case, fl = doc["case"], doc["fault"]
     ref = count_pass(case, fl["mode"])
-    status, detail, site = inject(case, fl["k"], fl["mode"], fl["exc"], ref, True)
+    status, detail, site = inject(case, fl["k"], fl["mode"], fl["exc"], ref, True, fl.get("k2"))
     print(f"replay: case {case['name']!r} fault {fl['exc']}@{fl['k']} ({fl['mode']}) site {site}: {status} {detail}")
     if status == "VIOLATION":
         print("REPRODUCED" if list(site or []) == list(fl.get("site") or []) else "reproduced at a different site")
